@@ -280,3 +280,20 @@ CHECKS["C03"] = {
     ],
     "floors": {"C03/sequential": {"@nontrivial": 0.2, "terminated": 0.5}, "C03/parked": {"parked_write_overlapped_other_calls": 0.1, "terminated_while_write_parked": 0.05}},
 }
+
+CHECKS["C15"] = {
+    "pkg": "./pool",
+    "level": "exploration",
+    "rule": ("A case is (capacity from -1/0/1/2/3, key capacity from -1/0/1/2, expiration none / one hour / immediate) and a history of 1..30 operations over 3 keys: Put of a fresh connection, re-Put of one that was taken, Take, "
+             "flipping a fake connection's blocked state, closing it externally, Pool.Close in the middle, and - with immediate expiration - releasing a parked expiry callback one scheduling point at a time "
+             "(after each Put the harness waits until that entry's callback has arrived at its first point, so every step runs with a known set of fired-but-not-completed expiries). Oracle after every step: the verif-tagged walk of the "
+             "pool's lists finds <= capacity entries in total and <= key capacity per key (none at all for negative capacities) and no connection that is currently handed out; a taken connection was put and not handed out since, "
+             "has the requested key, is not closed, not blocked, and its expiry has not fired. At the end (Pool.Close, all expiries released): every put connection was handed out xor closed, never handed out more often than put; no panic. "
+             "Non-trivial: an eviction happened, or an expiry callback was released in the middle of the history."),
+    "assumptions": ["expiry timers are real 1 ns timers whose callbacks park at verif scheduling points; 'fires in the middle of a Put' is not reachable (no fake clock), only 'fired and parked' and 'never fires'",
+                    "a mismatch between the walked lists and the pool's own counters is recorded as a diagnostic label, not as a violation"],
+    "subs": [
+        {"test": "TestC15Pool", "prop": "C15/pool", "quick": 40000, "thorough": 2000000, "shards_quick": 16, "shards_thorough": 16},
+    ],
+    "floors": {"C15/pool": {"eviction": 0.3, "expiry_released_mid_history": 0.04, "expiry_fired_and_parked": 0.2}},
+}
